@@ -40,6 +40,17 @@ int main() {
             ++R.cases;
             if (!throws<std::invalid_argument>([&] { Dyn d(v.begin(), v.end()); })) fail("DynamicPGMIndex accepted an unsorted bulk-load range (pair at position " + std::to_string(pos) + " of " + std::to_string(n) + ")");
         }
+    // reserved tombstone value at every position of an otherwise valid (sorted, distinct keys) bulk-load range
+    for (size_t n : {size_t(1), size_t(2), size_t(3), size_t(10), size_t(200), size_t(1000)})
+        for (size_t pos = 0; pos < n; pos += std::max<size_t>(1, n / 25)) {
+            std::vector<std::pair<uint32_t, uint32_t>> v;
+            for (size_t i = 0; i < n; ++i) v.push_back({uint32_t(10 * i + 10), uint32_t(i)});
+            v[pos].second = std::numeric_limits<uint32_t>::max();
+            ++R.cases;
+            if (!throws<std::invalid_argument>([&] { Dyn d(v.begin(), v.end()); })) fail("DynamicPGMIndex bulk load accepted the reserved tombstone value (pair at position " + std::to_string(pos) + " of " + std::to_string(n) + ")");
+            if (pos + 1 < n && pos + 1 != n - 1) { v[pos].second = 7; v[n - 1].second = std::numeric_limits<uint32_t>::max(); ++R.cases;
+                if (!throws<std::invalid_argument>([&] { Dyn d(v.begin(), v.end()); })) fail("DynamicPGMIndex bulk load accepted the reserved tombstone value (last pair of " + std::to_string(n) + ")"); }
+        }
     // tombstone value at every point of a history; rejected insert leaves the container unchanged
     {
         Dyn d((uint8_t) 4, (uint8_t) 1, (uint8_t) 2);
